@@ -10,6 +10,9 @@ Numerical statement checks on the implementation run as support and as the falsi
   keep-alt-vd      correct_pva in 2D returns alt and VD bit-exact
   order            || state_diff(pva, correct_pva(pva, s x)) - T s x ||  falls >= 1.8 orders per decade of s
   restore          state_diff(correct_pva(perturb_pva(pva, s e), T_int s e), pva) falls >= 1.8 orders per decade
+  both also on states whose roll / heading lies within a few error magnitudes of +-180 deg, with errors that carry
+  the angle across the cut in either direction, and with a first-order bound (residual <= 1/4 of the applied
+  error, per block and scale) so that a missing wrap (+-360 deg) at a single scale cannot hide
 Margins are >= 100x above rounding (floors below which a block is not judged).
 """
 import math
@@ -19,7 +22,9 @@ import pandas as pd
 
 RULE = ("translator: every traced function validated on 60 random inputs per run (irrun vs the real function); "
         "numeric support: random pva with |lat| <= 85, |pitch| <= 85, any roll/heading in (-180,180), "
-        "|V| <= 300 m/s, both altitude modes, random error directions; a case is distinct by its rounded pva + mode")
+        "|V| <= 300 m/s, both altitude modes, random error directions; plus n/2 states with roll or heading within "
+        "{0, 0.005, 0.05, 0.5, 2} error magnitudes of +180 / -180 deg and errors that cross / do not cross the cut; "
+        "a case is distinct by its rounded pva + mode")
 
 COLS = ['lat', 'lon', 'alt', 'VN', 'VE', 'VD', 'roll', 'pitch', 'heading']
 ERR = ['north', 'east', 'down', 'VN', 'VE', 'VD', 'roll', 'pitch', 'heading']
@@ -71,6 +76,19 @@ def _slopes(res):
     return bad
 
 
+def _first_order(res, bound):
+    """res[i], bound[i]: 9-vectors per scale.  The residual of every block must stay below a quarter of the
+    (cancellation-free) first-order magnitude of that block: a wrong wrap (+-360 deg), sign or row shows here
+    even when it occurs at a single scale only."""
+    bad = []
+    for i in range(len(SCALES)):
+        for b, sl in enumerate((slice(0, 3), slice(3, 6), slice(6, 9))):
+            lim = 0.25 * float(np.max(bound[i][sl])) + 100 * FLOOR[sl].max()
+            if float(np.max(res[i][sl])) > lim:
+                bad.append((b, i, float(np.max(res[i][sl])), lim))
+    return bad
+
+
 def eval_case(kind, p):
     """Evaluate one statement on the implementation.  Returns (ok, detail dict)."""
     from pyins import transform, sim
@@ -93,18 +111,23 @@ def eval_case(kind, p):
     if kind == 'order':
         T = em.transform_to_output(pva)
         x0 = np.array(p['x'])
-        res = []
+        res, bound = [], []
         for s in SCALES:
             c = em.correct_pva(pva, s * x0)
             d = transform.compute_state_difference(pva, c)
             if list(d.index) != ERR:
                 return False, dict(index=list(d.index))
             res.append(np.abs(d.values.astype(float) - T @ (s * x0)))
+            bound.append(np.abs(T) @ np.abs(s * x0))
         bad = _slopes(res)
-        return not bad, dict(slopes_failed=bad, residuals=[list(map(float, r)) for r in res])
+        bad1 = _first_order(res, bound)
+        return not bad and not bad1, dict(slopes_failed=bad, first_order_failed=bad1,
+                                          residuals=[list(map(float, r)) for r in res])
     if kind == 'restore':
         e0 = np.array(p['e'])
-        res = []
+        res, bound = [], []
+        T = np.abs(InsErrorModel(True).transform_to_output(pva))
+        Ti = np.abs(np.linalg.inv(InsErrorModel(True).transform_to_output(pva)))
         for s in SCALES:
             e = pd.Series(s * e0, index=ERR)
             pp = sim.perturb_pva(pva, e)
@@ -112,15 +135,69 @@ def eval_case(kind, p):
             c = em.correct_pva(pp, x)
             d = transform.compute_state_difference(c, pva)
             res.append(np.abs(d.values.astype(float)))
+            bound.append(T @ (Ti @ np.abs(e.values)))       # cancellation-free size of the applied error
         bad = _slopes(res)
-        return (not bad), dict(slopes_failed=bad, residuals=[list(map(float, r)) for r in res])
+        bad1 = _first_order(res, bound)
+        return not bad and not bad1, dict(slopes_failed=bad, first_order_failed=bad1,
+                                          residuals=[list(map(float, r)) for r in res])
     raise ValueError(kind)
 
 
-def numeric_statements(r, n, seed_shift=5):
+def near_cut_case(rng, wa, k):
+    """A state whose roll (k even) or heading (k odd) lies within a few error magnitudes of +-180 deg, with an
+    error vector whose correction / perturbation carries that angle ACROSS the cut (both sides, both
+    directions) at some of the scales, or stays just short of it."""
+    from pyins.error_model import InsErrorModel
+    nst = 9 if wa else 7
+    pva = rand_pva(rng)
+    x = rand_x(rng, nst)
+    e = rand_e(rng, wa)
+    idx = 6 if k % 2 == 0 else 8                 # roll / heading
+    side = 1.0 if (k // 2) % 2 == 0 else -1.0    # near +180 / near -180
+    cross = (k // 4) % 4 != 3                    # 3 of 4: cross the cut; 1 of 4: stay on the same side
+    frac = [2.0, 0.5, 0.05, 0.005, 0.0][(k // 16) % 5]   # distance to the cut in units of the angle error at scale 1
+    pva[idx] = side * 179.0
+    T = InsErrorModel(wa).transform_to_output(pd.Series(pva, index=COLS, dtype=float))
+    d = float((T @ np.array(x))[idx])            # the angle moves by -s*d under correct_pva(pva, s x)
+    if d == 0.0:
+        d = 1e-3
+    # correct_pva moves the angle by -s*d: crossing at +180 needs d < 0, at -180 needs d > 0
+    want_neg = (side > 0) == cross
+    if (d < 0) != want_neg:
+        x = [-v for v in x]
+        d = -d
+    # perturb_pva moves the angle by +s*e: crossing at +180 needs e > 0
+    want_pos = (side > 0) == cross
+    if (e[idx] > 0) != want_pos:
+        e[idx] = -e[idx]
+    delta = frac * max(abs(d), abs(e[idx]), 1e-6)
+    pva[idx] = side * (180.0 - delta)
+    return dict(pva=pva, with_altitude=wa, x=x, e=e), ('roll' if idx == 6 else 'heading', side, cross, frac)
+
+
+def numeric_statements(r, n, seed_shift=5, n_cut=None):
     rng = random.Random(r.seed + seed_shift)
     fails = []
-    dist = dict(cases=0, with_altitude=0, no_altitude=0, special_lat_pitch=0)
+    dist = dict(cases=0, with_altitude=0, no_altitude=0, special_lat_pitch=0, near_cut=0)
+    n_cut = n // 2 if n_cut is None else n_cut
+    # attitudes at the +-180 deg cut of roll / heading (order and restore statements only)
+    for k in range(n_cut):
+        wa = (rng.random() < 0.5)
+        try:
+            p, tag = near_cut_case(rng, wa, k)
+        except Exception as ex:
+            fails.append(("C05: transform_to_output crashed on a domain input", dict(kind='crash', detail=repr(ex))))
+            continue
+        dist['near_cut'] += 1
+        r.case(("cut", wa, k % 80) + tuple(round(v, 6) for v in p['pva']), sample=dict(p, near_cut=list(map(str, tag))))
+        for kind in ('order', 'restore'):
+            try:
+                ok, det = eval_case(kind, p)
+            except Exception as ex:
+                ok, det = False, dict(exception=repr(ex))
+            if not ok:
+                fails.append((f"C05 {kind} fails on the implementation ({tag[0]} at the +-180 deg cut)",
+                              dict(kind=kind, params=p, detail=det, near_cut=list(map(str, tag)))))
     for i in range(n):
         pva = rand_pva(rng)
         wa = (i % 2 == 0)
@@ -163,19 +240,25 @@ def check(r):
         "C05(c) perturb-then-correct is stated for e = T_out y (equivalently y = T_inv e) with T evaluated at the "
         "unperturbed state; the implementation check uses transform_to_internal at the perturbed state",
     ]
-    r.generate(['Util', 'Transform', 'ErrState'])
-    r.prove('Props/C05.v')
+    # the numerical statements do not depend on Gen/ErrState.v: they run whatever happens to the translator / proofs
+    try:
+        if r.generate(['Util', 'Transform', 'ErrState']):
+            r.prove('Props/C05.v')
+            if r.tier == 'thorough':
+                r.hygiene('Props/C05.v')
+                r.coqchk('Props/C05.v')
+    except Exception as ex:
+        r.broken('harness', 'translator/proof stage', repr(ex))
     n = 120 if r.tier == 'quick' else 4000
     fails = numeric_statements(r, n)
-    r.coverage['numeric_support'] = dict(pva=n, failures=len(fails))
+    r.coverage['numeric_support'] = dict(pva=n, near_cut=n // 2, failures=len(fails))
     for what, rep in fails[:5]:
         r.violation(what, rep)
-    if r.tier == 'thorough':
-        r.hygiene()
 
 
 def falsify(r):
-    fails = numeric_statements(r, 1500, seed_shift=505)
+    """Independent of the translator and of Coq: a seeded search on the implementation only."""
+    fails = numeric_statements(r, 1500, seed_shift=505, n_cut=1600)
     for what, rep in fails[:5]:
         r.violation(what, rep)
 
